@@ -7,9 +7,25 @@ ASSUMPTIONS = ["fork-free DAGs produced by honest cores; cache sizes above the n
 def run(ctx):
     res = simcommon.run(ctx, "dagrun")
     findings, diffs = simcommon.findings_for(res, "C03", None)
+    extra = {}
+    for fl in ("split", "splitdag"):
+        # directed split-vote schedules: the round-received rule oracle (V C03 round-received-*) after every action of
+        # every node, and (splitdag) the same DAGs re-fed under orders / cuts / stores
+        r2 = simcommon.run(ctx, fl)
+        f2, d2 = simcommon.findings_for(r2, "C03", None)
+        findings = f2 + findings; diffs = d2 + diffs   # first: the known batching classes must not crowd them out
+        extra[fl] = simcommon.coverage_from(r2)
     cov = simcommon.coverage_from(res, "Each history's global DAG is re-fed to fresh Hashgraphs: 3-6 random topological orders, 3 downward-closed "
         "cuts, Badger store with two cache sizes, batch sizes {2,3,5,7,11,once-at-end}; pairwise comparison of projected observables (round, witness, "
         "lamport, projected fame, round-received, blocks incl. frame hash) and per-run replay on the model (per-event and batched).")
     agg = cov.get("histogram", {}).get("totals", {})
     cov["distinct_nontrivial"] = sum(1 for s in res["stats"] if s.get("blocks", 0) > 0 and s.get("a:dag-order-runs", 0) > 0)
-    return dict(findings=findings, coverage=cov, corr_diffs=diffs)
+    for fl, c in extra.items():
+        cov["evaluations"] += c["evaluations"]; cov["histories"] += c["histories"]
+        cov["traces_validated_against_impl"] += c["traces_validated_against_impl"]
+        cov["distinct_nontrivial"] += sum(1 for s in simcommon.run(ctx, fl)["stats"] if s.get("a:later-round-decided-first", 0) > 0)
+        cov["distribution_" + fl] = c["distribution"]; cov["histogram_" + fl] = c["histogram"]
+    cov["rule"] += (" Flavours split/splitdag: directed schedules (split votes up to the coin round); a history is non-trivial when after some "
+                    "action a later round was completely decided while an earlier one was not; oracle: every event that obtains a round-received "
+                    "i has all rounds between its round and i decided at that moment, none of them qualifying, and all famous witnesses of i see it.")
+    return dict(findings=findings[:10], coverage=cov, corr_diffs=diffs[:10])
